@@ -243,8 +243,9 @@ impl SyncAssetTransfer {
         loop {
             match lock {
                 Ok(mut map) => {
-                    let mesh = map.entry(*id).or_insert_with(|| mesh_to_bin(mesh));
+                    let mesh = mesh_to_bin(mesh);
                     debug!("Serving mesh {} with size {}", id, mesh.len());
+                    map.insert(*id, mesh);
                     break;
                 }
                 Err(_) => lock = self.meshes.write(),
@@ -260,8 +261,8 @@ impl SyncAssetTransfer {
             match lock {
                 Ok(mut map) => {
                     if let Some(bin) = image_to_bin(image) {
-                        let image = map.entry(*id).or_insert_with(|| bin);
-                        debug!("Serving image {} with size {}", id, image.len());
+                        debug!("Serving image {} with size {}", id, bin.len());
+                        map.insert(*id, bin);
                     }
                     break;
                 }
@@ -278,8 +279,8 @@ impl SyncAssetTransfer {
             match lock {
                 Ok(mut map) => {
                     let bin = Vec::<u8>::from(audio.as_ref());
-                    let audio = map.entry(*id).or_insert_with(|| bin);
-                    debug!("Serving audio {} with size {}", id, audio.len());
+                    debug!("Serving audio {} with size {}", id, bin.len());
+                    map.insert(*id, bin);
                     break;
                 }
                 Err(_) => lock = self.meshes.write(),
